@@ -14,7 +14,9 @@ RULE = ('Hypothesis draws feature-forced shell models x valid configurations (al
         'position, scripted replies and scripted out/inout results. Oracle on the trace: exactly one '
         'recorder entry per call, on the same-named event of the same-named port on the other side, '
         'arguments equal position by position, reply and out/inout values back at the caller, no '
-        'other recorder fired; the set of pairs exercised equals the set derived from the model. '
+        'other recorder fired; the set of pairs exercised equals the set derived from the model; per '
+        'port one event is also raised by the component *while it handles* an incoming event (for a '
+        'multi-client port: an out-event in answer to the release), both must arrive. '
         'Non-trivial: a call with >= 1 argument or a non-void reply; distinct by (model hash, port, '
         'event, role). evaluations counts calls, not models.')
 ASSUMPTIONS = c06.ASSUMPTIONS + ['release events of multi-client ports reply void']
@@ -66,9 +68,38 @@ def plan(info):
                     steps.append((f'pcomp {nm} {ev["name"]}',
                                   {'role': 'component->provides-out', 'port': nm, 'ev': ev,
                                    'side': 'user', 'hport': f'{nm}@{client}'}))
-            steps.append((f'mccall {client} {nm} {release["name"]}',
-                          {'role': 'client->provides-in', 'port': nm, 'ev': release, 'side': 'comp',
-                           'hport': nm}))
+            outs = [e for e in evs if e['dir'] == 'out']
+            if outs and client == 'B':
+                # the component answers the release with an out-event of its own, raised while it
+                # handles the release: both have to arrive (the release at the component, the
+                # out-event at the releasing client, who still holds the claim)
+                steps.append((f'react {nm}.{release["name"]} {nm} {outs[-1]["name"]}', None))
+                steps.append((f'mccall {client} {nm} {release["name"]}',
+                              {'role': 'client->provides-in', 'port': nm, 'ev': release, 'side': 'comp',
+                               'hport': nm, 'reaction': {'ev': outs[-1], 'side': 'user',
+                                                         'hport': f'{nm}@{client}'}}))
+                steps.append(('unreact', None))
+            else:
+                steps.append((f'mccall {client} {nm} {release["name"]}',
+                              {'role': 'client->provides-in', 'port': nm, 'ev': release,
+                               'side': 'comp', 'hport': nm}))
+    # events the component raises while it handles an event (one per plain port that has both)
+    for p in info.ports:
+        if info.is_mc(p):
+            continue
+        nm = p['name']
+        own = 'in' if p['dir'] == 'provides' else 'out'
+        ins = [e for e in p['itf']['elem']['events'] if e['dir'] == own]
+        backs = [e for e in p['itf']['elem']['events'] if e['dir'] != own]
+        if not ins or not backs:
+            continue
+        trig, back = ins[-1], backs[0]
+        steps.append((f'react {nm}.{trig["name"]} {nm} {back["name"]}', None))
+        steps.append((f'{"call" if own == "in" else "raise"} {nm} {trig["name"]}',
+                      {'role': 'client->provides-in' if own == 'in' else 'peer->requires-out',
+                       'port': nm, 'ev': trig, 'side': 'comp', 'hport': nm,
+                       'reaction': {'ev': back, 'side': 'user', 'hport': nm}}))
+        steps.append(('unreact', None))
     return steps
 
 
@@ -88,6 +119,7 @@ def script_for(info, steps):
         script.append(cmd)
         if exp is not None:
             script.append('idle')
+            script.append(f'mark after{i}')
     script.append('mark end')
     return script
 
@@ -119,6 +151,28 @@ def judge_step(info, exp, lines, what):
     calls = [t for t in lines if t['k'] == 'c']
     rets = [t for t in lines if t['k'] == 'r']
     hs = [t for t in lines if t['k'] == 'h']
+    rea = exp.get('reaction')
+    if rea:
+        # the nested event the component raised while handling this one: set apart and judged first
+        inner_c = [t for t in calls if t['side'] == 'comp']
+        if len(inner_c) != 1:
+            raise Fail(f'{what}: the component-side handler never ran its reaction '
+                       f'({len(inner_c)} nested calls)', f'{exp["role"]}:arrived-0-times')
+        inner_r = [t for t in rets if t['call'] == inner_c[0]['call']]
+        rh = [h for h in hs if h['side'] == rea['side']]
+        good = [h for h in rh if h['port'] == rea['hport'] and h['ev'] == rea['ev']['name'] and
+                h['dir'] == rea['ev']['dir']]
+        if len(good) != 1 or len(rh) != 1:
+            raise Fail(f'{what}: the event {rea["ev"]["name"]} the component raised while handling it '
+                       f'arrived {len(good)} times at {rea["hport"]} (handlers on that side: '
+                       f'{[(h["port"], h["ev"]) for h in rh]})',
+                       f'nested:arrived-{min(len(good), 2)}-times')
+        if good[0]['args'] != inner_c[0]['args'] or len(inner_r) != 1:
+            raise Fail(f'{what}: nested event arguments {inner_c[0]["args"]} arrived as '
+                       f'{good[0]["args"]}', 'nested:arguments')
+        calls = [t for t in calls if t is not inner_c[0]]
+        rets = [t for t in rets if t not in inner_r]
+        hs = [h for h in hs if h not in rh]
     if len(calls) != 1:
         raise Fail(f'{what}: the driver could not issue the call ({lines[:3]})', 'no-call')
     if len(rets) != 1:
